@@ -236,6 +236,10 @@ def run_case(case, res):
                             bad.append(f"format({sname},{rk},{join!r}) raised {got!r}")
                             continue
                         res.observe("rendered_texts", got)
+                        if sname == "round43" and rk == "str" and join == "\n":
+                            again = attempt(lambda: (t.format(**kw) if start == -1 else nodes[start].format(**kw)))
+                            if again != got:
+                                bad.append("format() called twice gives different texts")
                         got_lines = got.split(join) if (got or exp_lines) else []
                         if got == "" and not exp_lines:
                             got_lines = []
